@@ -68,3 +68,31 @@ def needle_tok(alpha_hex, k):
         k //= a
     digs.reverse()
     return ''.join(alpha_hex[2 * d:2 * d + 2] for d in digs)
+
+
+def block_boundary_subjects(rng, thorough=False, light=False):
+    """long subjects (just above 1, 2 and nearly 3 KiB) with ONE occurrence of a multi-byte pattern placed so that it
+    straddles, touches or just misses an offset of the form 1024*k counted from the start, or size - 1024*k counted
+    from the end (a search that works block by block — forwards or backwards — loses exactly these), optionally with an
+    earlier decoy occurrence; yields (subject, pattern, offset)"""
+    out = []
+    for L in ((1025, 2049) if light else (1025, 2049, 3001) if not thorough else (1025, 1026, 2048, 2049, 3001, 4097)):
+        for pat in ((b'##', b'Aa') if light else (b'##', b'Sep', b'Aa', b'abcd')):
+            m = len(pat)
+            marks = set()
+            for k in (1, 2, 3):
+                for b in (1024 * k, L - 1024 * k):
+                    if 0 < b < L:
+                        for o in range(b - m, b + 2):
+                            if 0 <= o <= L - m:
+                                marks.add(o)
+            marks |= {0, L - m}
+            for o in sorted(marks):
+                filler = bytearray(0x78 for _ in range(L))     # 'x': occurs in no pattern
+                filler[o:o + m] = pat
+                out.append((bytes(filler), pat, o))
+                if o > 40 and (o % 3 == 0 or thorough):
+                    f2 = bytearray(filler)
+                    f2[7:7 + m] = pat                          # an earlier occurrence: the wrong answer of a lossy search
+                    out.append((bytes(f2), pat, o))
+    return out
